@@ -11,7 +11,7 @@ def key_bytes(n=16):
     return [("key%02d" % i).encode() for i in range(n)]
 
 
-def run_db_batch(binary, name, cases, gates=False, seed=1, timeout=300, keys=None):
+def run_db_batch(binary, name, cases, gates=False, seed=1, timeout=300, keys=None, env=None):
     """cases: list of step lists. Returns (trace_path, events). A crash / hang of the driver is an observable outcome of the code
     under test (background panic, dead-locked flusher): the trace written so far gets a final bgfail line."""
     work = common.scratch("db-" + name)
@@ -21,7 +21,9 @@ def run_db_batch(binary, name, cases, gates=False, seed=1, timeout=300, keys=Non
     in_path = trace + ".in.json"
     with open(in_path, "w") as f:
         json.dump(inp, f)
-    rc, out, err, to = common.run_proc([binary, "db", in_path, trace], timeout)
+    penv = dict(os.environ)
+    penv.update(env or {})
+    rc, out, err, to = common.run_proc([binary, "db", in_path, trace], timeout, env=penv)
     err_s = (err or b"").decode("utf-8", "replace")
     if to or rc != 0:
         if rc == 3 or rc == 2:
@@ -66,3 +68,65 @@ def case_events(trace, case):
             if cur == case:
                 out.append(e)
     return out
+
+
+def project_per_key(trace_path, out_path):
+    """Black-box projection of a recorded history: inv/ret pairs only, one case per (case, key). Returns number of cases."""
+    cases = {}
+    order = []
+    cur = None
+    pend = {}
+    with open(trace_path) as f:
+        for ln in f:
+            e = json.loads(ln)
+            t = e.get("t")
+            if t == "reset":
+                cur = e["case"]
+                pend = {}
+            elif t == "inv":
+                key = (cur, e["k"])
+                if key not in cases:
+                    cases[key] = []
+                    order.append(key)
+                cases[key].append({"t": "inv", "g": e["g"], "op": e["op"], "v": e["v"]})
+                pend[e["g"]] = key
+            elif t == "ret" and e["g"] in pend:
+                key = pend.pop(e["g"])
+                cases[key].append({"t": "ret", "g": e["g"], "r": e["r"]})
+    n = 0
+    index = []
+    with open(out_path, "w") as f:
+        for key in order:
+            evs = cases[key]
+            # a history cut by a crash may end with pending calls: drop the open invocations' missing returns by closing the case
+            open_g = set()
+            for e in evs:
+                if e["t"] == "inv":
+                    open_g.add(e["g"])
+                else:
+                    open_g.discard(e["g"])
+            if open_g:
+                evs = [e for e in evs if not (e["t"] == "inv" and e["g"] in open_g and e is [x for x in evs if x["t"] == "inv" and x["g"] == e["g"]][-1])]
+            f.write(json.dumps({"t": "reset", "case": n}) + "\n")
+            for e in evs:
+                f.write(json.dumps(e) + "\n")
+            index.append((key, len(evs)))
+            n += 1
+    return index
+
+
+def judge_lin(lin_path, outcome, what, timeout=600):
+    """strict acceptance by high-water mark; returns (accepted, hw, total_lines)"""
+    r = common.tlc("KVLinTrace.tla", "KVLinTrace.cfg", workers=1, timeout=timeout, env_extra={"TRACE": lin_path}, heap="4g")
+    outcome.add_tlc(r, what)
+    if r.error:
+        raise MachineryError("KVLinTrace: " + r.error)
+    hw = None
+    for line in r.prints:
+        t, rest = common.parse_tla_print(line)
+        if t == "HW":
+            hw = int(rest)
+    if hw is None:
+        raise MachineryError("KVLinTrace printed no HW\n" + r.out[-1500:])
+    total = sum(1 for _ in open(lin_path))
+    return hw == total + 1, hw, total
